@@ -5,6 +5,7 @@ import (
 	"strings"
 
 	textwire "github.com/textwire/textwire/v2"
+	"github.com/textwire/textwire/v2/config"
 )
 
 // C17 — Response writes the page or one error page, and leaks no detail unless debugging.
@@ -15,7 +16,7 @@ type c17Case struct {
 	Page   int  `json:"page"`             // index into c17Pages
 	Kind   int  `json:"kind"`             // which fault the failing page contains
 	Second bool `json:"second,omitempty"` // the same call issued a second time (same body expected)
-	Prior  int  `json:"prior,omitempty"`  // 0 none; 1: a failing Response under the opposite debug mode was served earlier in this process; 2: one under the same mode with another error
+	Prior  int  `json:"prior,omitempty"`  // 0 none; 1: a failing Response under the opposite debug mode was served earlier in this process; 2: one under the same mode with another error; 3: the templates were loaded under the opposite debug mode and Configure switched it afterwards
 }
 
 var c17Pages = []string{"ok", "fail-start", "fail-middle", "fail-end", "fail-in-layout", "fail-in-component", "fail-second-pass", "unknown", "fail-in-insert", "fail-after-component", "fail-in-insert-arg"}
@@ -25,6 +26,16 @@ var c17Faults = []struct{ src, msgPart string }{
 	{`{{ 1 + "SECRETMSG" }}`, "type mismatch"},
 	{"{{ 10 / 0 }}", "division by zero"},
 	{"{{ 'SECRETMSG' % 'de' }}", "operator"}, // the message contains a per cent sign
+	// the failure sits in other evaluation sites: a later element of an expression list, an object value, a
+	// ternary arm, a directive header, an assignment
+	{"{{ [1, secretVar] }}", "secretVar"},
+	{`{{ "abc".at(0, secretVar) }}`, "secretVar"},
+	{"{{ {a: 1, b: secretVar}.a }}", "secretVar"},
+	{"{{ true ? secretVar : 1 }}", "secretVar"},
+	{"@if(secretVar)x@end", "secretVar"},
+	{"@each(v in [1, secretVar])x@end", "secretVar"},
+	{"@for(i = 0; i < secretVar; i++)x@end", "secretVar"},
+	{"{{ x = [[1], [2, secretVar]] }}", "secretVar"},
 }
 
 const c17Marker = "MARK-"
@@ -50,6 +61,9 @@ func c17Tree(cs c17Case) (Tree, string) {
 	case "fail-in-insert":
 		t.Files["p.tw"] = `@use("lay")@insert("a")` + c17Marker + "1\n" + fault + "@end"
 	case "fail-in-insert-arg":
+		if !strings.HasPrefix(fault, "{{ ") || strings.Contains(fault, " = ") {
+			fault = c17Faults[0].src // directives and assignments cannot stand in an argument
+		}
 		expr := strings.TrimSuffix(strings.TrimPrefix(fault, "{{ "), " }}")
 		t.Files["p.tw"] = `@use("lay")` + c17Marker + `1 @insert("a", ` + expr + ")"
 	case "fail-in-component":
@@ -82,7 +96,10 @@ func c17Tree(cs c17Case) (Tree, string) {
 func c17Check(cs c17Case) (ok bool, sig, expected, observed string) {
 	t, name := c17Tree(cs)
 	keep := false
-	if cs.Prior > 0 {
+	if cs.Prior == 3 {
+		t.Debug = !cs.Debug
+	}
+	if cs.Prior == 1 || cs.Prior == 2 {
 		// an earlier failing Response in the same process, under another configuration / with another error
 		prior := c17Case{Debug: cs.Debug, ErrPg: 0, Page: 2, Kind: (cs.Kind + 1) % len(c17Faults)}
 		if cs.Prior == 1 {
@@ -106,6 +123,9 @@ func c17Check(cs c17Case) (ok bool, sig, expected, observed string) {
 	cfg := fmt.Sprintf("debug=%v errorPage=%d page=%s fault=%d prior=%d", cs.Debug, cs.ErrPg, c17Pages[cs.Page], cs.Kind, cs.Prior)
 	if lo.Kind != KOut {
 		return false, "load-failed", "the tree loads (" + cfg + ")", lo.String()
+	}
+	if cs.Prior == 3 {
+		textwire.Configure(&config.Config{DebugMode: cs.Debug}) // the debug mode in force is the configured one
 	}
 	o, body := respond(tpl, name, map[string]any{"x": 1})
 	if cs.Second {
@@ -186,7 +206,7 @@ func c17Run(c *Ctx) {
 					continue
 				}
 				for kind := range c17Faults {
-					for v := 0; v < 4; v++ {
+					for v := 0; v < 5; v++ {
 						if c.Expired() {
 							return
 						}
@@ -243,10 +263,10 @@ func init() {
 	p := &Property{
 		ID:    "C17",
 		Level: "exploration",
-		Rule: "complete product: {debug on, off} x {no / valid / missing / run-time-failing / nested-directory custom error page} x {succeeding page; page failing at its start / middle / end after marker output; failing inside its layout, inside an insert, inside a component, after a component, in the second pass of a loop; unknown template} x four error kinds (one whose message contains a per cent sign; pages and the custom error page contain per cent signs too) x {first call, repeated call, after an earlier failing Response served under the opposite debug mode in the same process, after one under the same mode with another error}; plus a non-interference pass: with debug off the body must be byte-identical for every failing template and error kind. " +
+		Rule: "complete product: {debug on, off} x {no / valid / missing / run-time-failing / nested-directory custom error page} x {succeeding page; page failing at its start / middle / end after marker output; failing inside its layout, inside an insert, inside a component, after a component, in the second pass of a loop; unknown template} x four error kinds (one whose message contains a per cent sign; pages and the custom error page contain per cent signs too) x {first call, repeated call, after an earlier failing Response served under the opposite debug mode in the same process, after one under the same mode with another error}; plus a non-interference pass: with debug off the body must be byte-identical for every failing template and error kind.  [as built: 12 fault forms (failing identifier / operator / division / modulo, and a failure in a later array element, a later call argument, an object value, a ternary arm, @if / @each / @for headers, a nested assignment); variants first / second call / prior failing Response under the opposite or same debug mode / loaded under the opposite debug mode then Configure]" +
 			"Non-trivial: the render fails",
 		Bounds: func(tier string) map[string]any {
-			return map[string]any{"configurations": 2 * 5 * len(c17Pages) * len(c17Faults) * 4, "complete": true}
+			return map[string]any{"configurations": 2 * 5 * len(c17Pages) * len(c17Faults) * 5, "complete": true}
 		},
 		Assume:  []string{"the built-in page is recognised by its <html> frame; leak words are the error message parts, identifiers of the failing page, the scratch directory, template file names and the 'Textwire ERROR' prefix"},
 		Workers: 8,
